@@ -27,7 +27,15 @@ Edit a single block's contents.
 
 import logging
 import uuid
-from typing import Container, Dict, List, MutableMapping, Optional, Set
+from typing import (
+    Container,
+    Dict,
+    List,
+    MutableMapping,
+    Optional,
+    Set,
+    Tuple,
+)
 
 import gtirb
 from more_itertools import pairwise
@@ -118,18 +126,53 @@ def _add_return_edges_for_patch_calls(
         )
 
 
+def _function_return_targets(
+    cache: ModifyCache, block: gtirb.CodeBlock
+) -> Tuple[Set[gtirb.CfgNode], Set[gtirb.CfgNode]]:
+    """
+    Determines where the function containing a block returns to.
+    :returns: The non-proxy targets of the function's existing return edges
+              and the fallthrough targets of the function's direct callers.
+    """
+    assert block.module
+
+    existing: Set[gtirb.CfgNode] = set()
+    from_callers: Set[gtirb.CfgNode] = set()
+
+    func_uuid = cache.functions_by_block.get(block, None)
+    if not func_uuid:
+        return existing, from_callers
+
+    for func_block in _get_function_blocks(block.module, func_uuid):
+        existing.update(
+            edge.target
+            for edge in cache.return_cache.block_return_edges(func_block)
+            if not isinstance(edge.target, gtirb.ProxyBlock)
+        )
+        # The function may not have a return yet (so there are no return
+        # edges to copy), but its callers still tell us where a return goes.
+        for edge in func_block.incoming_edges:
+            if _is_call_edge(edge) and isinstance(
+                edge.source, gtirb.CodeBlock
+            ):
+                from_callers.update(_block_fallthrough_targets(edge.source))
+
+    return existing, from_callers
+
+
 def _update_patch_return_edges_to_match(
     cache: ModifyCache,
     block: gtirb.CodeBlock,
     new_cfg: gtirb.CFG,
     new_proxy_blocks: Set[gtirb.ProxyBlock],
+    extra_return_targets: Set[gtirb.CfgNode],
 ) -> None:
     """
     Finds all return edges in a patch and updates them to match the function
     being inserted into.
+    :param extra_return_targets: Return targets of the function that cannot
+           be determined from the CFG in its current state.
     """
-    assert block.module
-
     patch_return_edges = {
         edge
         for edge in new_cfg
@@ -138,26 +181,8 @@ def _update_patch_return_edges_to_match(
     if not patch_return_edges:
         return
 
-    func_uuid = cache.functions_by_block.get(block, None)
-    if not func_uuid:
-        return
-
-    return_targets: Set[gtirb.CfgNode] = set()
-    for func_block in _get_function_blocks(block.module, func_uuid):
-        return_targets.update(
-            edge.target
-            for edge in cache.return_cache.block_return_edges(func_block)
-            if not isinstance(edge.target, gtirb.ProxyBlock)
-        )
-        # The function may not have had a return before (so there are no
-        # return edges to copy), but its callers still tell us where a
-        # return goes.
-        for edge in func_block.incoming_edges:
-            if _is_call_edge(edge) and isinstance(
-                edge.source, gtirb.CodeBlock
-            ):
-                return_targets.update(_block_fallthrough_targets(edge.source))
-
+    existing, from_callers = _function_return_targets(cache, block)
+    return_targets = existing | from_callers | extra_return_targets
     if not return_targets:
         return
 
@@ -304,10 +329,13 @@ def insert(
     module = block.module
     cfg = block.ir.cfg
 
-    if isinstance(block, gtirb.CodeBlock):
-        _update_patch_return_edges_to_match(
-            cache, block, code.cfg, code.proxies
-        )
+    # If the replaced code holds the function's only return, the return
+    # targets that do not come from direct callers (e.g. the return sites of
+    # indirect calls) can no longer be found once it is removed.
+    unknown_return_targets: Set[gtirb.CfgNode] = set()
+    if isinstance(block, gtirb.CodeBlock) and replacement_length:
+        existing, from_callers = _function_return_targets(cache, block)
+        unknown_return_targets = existing - from_callers
 
     _, end_block, added_fallthrough = split_block(cache, block, offset)
 
@@ -318,6 +346,13 @@ def insert(
         remove_block(cache, mid_block)
 
     _add_missing_fallthrough(cache, cfg, end_block)
+
+    # This needs to happen after the replaced code is removed so that a call
+    # that is being replaced does not count as a caller.
+    if isinstance(block, gtirb.CodeBlock):
+        _update_patch_return_edges_to_match(
+            cache, block, code.cfg, code.proxies, unknown_return_targets
+        )
 
     # This needs to happen after the block has been split: if the patch calls
     # the function it is being inserted into, the new return edges must start
